@@ -1,0 +1,16 @@
+//go:build verif
+
+package dkg
+
+// Hooks for the verification harness in /verif (compiled only with -tags verif).
+
+import (
+	"github.com/corestario/kyber"
+	dkg "github.com/corestario/kyber/share/dkg/pedersen"
+)
+
+// VerifInstance returns the underlying kyber distributed key generator.
+func (d *DKG) VerifInstance() *dkg.DistKeyGenerator { return d.instance }
+
+// VerifStoredCommits returns the broadcast commitments stored for a participant.
+func (d *DKG) VerifStoredCommits(participant string) []kyber.Point { return d.commits[participant] }
